@@ -35,6 +35,8 @@ class ScopeProc(plumpy.Process):
 
     def second(self):
         self.seen.append(('continuation', plumpy.Process.current()))
+        # scheduled from the last step: runs when the process has already finished, still as code of this process
+        self.call_soon(lambda: self.seen.append(('call_soon-after-the-last-step', plumpy.Process.current())))
 
 
 class HookProc(plumpy.Process):
